@@ -128,7 +128,7 @@ def run(repo, rep):
     shape_rules(repo, rep)
     covariance_rules(repo, rep)
     stage_rules(repo, rep)
-    rep.floor('R-FORMULA', 72, 'nine covariance elements: end to end (two directions, two input shapes) and per stage (two rotations, two directions of the similarity)')
+    rep.floor('R-FORMULA', 54, 'nine covariance elements: end to end (two directions, two input shapes) and per stage (two rotations, two directions of the similarity)')
 
 
 COV_ORACLE = '''
@@ -212,10 +212,14 @@ def covariance_rules(repo, rep):
         f = repo.func('geodepy.transform', fname)
         w = where(f, f.node)
         ps = [p.name for p in f.params]
-        for cfg in ('3x3', '3x1'):
+        for cfg in ('3x3', '3x1', 'zero'):
             if cfg == '3x3':
                 vin = Mat([[Rat.sym('v%d%d' % (i, j)) for j in range(3)] for i in range(3)], (3, 3))
                 vref = vin
+            elif cfg == 'zero':
+                # the zero matrix is a symmetric PSD covariance (a point held fixed): the parameter contribution must still come back
+                vin = Mat([[C(0) for j in range(3)] for i in range(3)], (3, 3))
+                vref = Mat([[C(0) for j in range(3)] for i in range(3)], (3, 3))
             else:
                 vin = Mat([[Rat.sym('v%d%d' % (i, i))] for i in range(3)], (3, 1))
                 vref = Mat([[Rat.sym('v%d%d' % (i, i)) if i == j else C(0) for j in range(3)] for i in range(3)], (3, 3))
@@ -225,6 +229,10 @@ def covariance_rules(repo, rep):
             ref = o.call('cov', zone=Rat.sym('zone'), east=Rat.sym('east'), north=Rat.sym('north'), ell_ht=Rat.sym('ell_ht'), V=vref, forward=Bool(fwd))
             got = val.items[4] if isinstance(val, Tup) and len(val.items) == 5 else None
             base = 'R-FORMULA::geodepy/transform.py::%s::covariance%s' % (fname, cfg)
+            if isinstance(got, NoneV):
+                rep.violated('R-BRANCH', base.replace('R-FORMULA', 'R-BRANCH'), w, 'a supplied %s covariance is answered with None: the parameter-uncertainty contribution is lost' % cfg,
+                             expected='a 3x3 covariance', actual='None')
+                continue
             if not isinstance(got, Mat) or got.shape != (3, 3) or not isinstance(ref, Mat):
                 rep.undecided('R-FORMULA', base, w, 'returned covariance for a %s input is not a 3x3 array: %s' % (cfg, show(got, 2, 120)))
                 continue
